@@ -971,9 +971,9 @@ theorem cinv_expireLoop (S : Strs) (ts : List FragRef) (s : State) (h : CInvX s 
           · exact h
           · exact cinvx_updReq_flush s mi _ r hr ⟨rfl, rfl⟩ h
 
-theorem cinv_expire (S : Strs) (s : State) (h : CInvX s none) : CInvX (expire S s) none := by
+theorem cinv_expire (S : Strs) (s : State) (n : Nat) (h : CInvX s none) : CInvX (expire S s n) none := by
   unfold expire
-  exact cinvx_congr _ _ none rfl rfl (cinv_expireLoop S s.timeouts s h)
+  exact cinvx_congr _ _ none rfl rfl (cinv_expireLoop S ((liveDeadlines s).take n) s h)
 
 theorem cinv_connect (s : State) (admitted : Bool) (h : CInvX s none) :
     CInvX { s with clients := s.clients ++ [{ opened := admitted }] } none := by
@@ -1027,7 +1027,7 @@ theorem good_step (T : Tables) (S : Strs) (cfg : Cfg) (slotFn : Bytes → Nat) (
     | runTasks => exact Or.inr (cinv_runTasks S cfg s hc)
     | backendBytes b chunk => exact good_backendBytes T S cfg slotFn s b chunk hc
     | backendClose b => exact Or.inr (cinv_backendClose S s b hc)
-    | expire => exact Or.inr (cinv_expire S s hc)
+    | expire n => exact Or.inr (cinv_expire S s n hc)
     | poolRemove p => exact Or.inr (cinvx_of_same _ _ none (same_poolRemove s p) hc)
 
 theorem good_run (T : Tables) (S : Strs) (cfg : Cfg) (slotFn : Bytes → Nat) (es : List Event) (s : State) (h : Good s) :
